@@ -606,15 +606,36 @@ func toDeleteNotification(n *pb.Notification, timestamp int64) *pb.Notification 
 	if origin := path.GetOrigin(); n.GetPrefix().GetOrigin() == "" && origin != "" {
 		d.Prefix.Origin = origin
 	}
+	// The delete path is built in fresh slices: the stored notification may
+	// share its prefix with other stored notifications.
 	switch {
 	case n.GetAtomic():
 		d.Delete = []*pb.Path{{Elem: prefix.GetElem(), Element: prefix.GetElement()}}
 	case len(prefix.GetElem()) > 0 || len(path.GetElem()) > 0:
-		d.Delete = []*pb.Path{{Elem: append(prefix.GetElem(), path.GetElem()...)}}
+		pre, suf := pathElems(prefix), pathElems(path)
+		elems := make([]*pb.PathElem, 0, len(pre)+len(suf))
+		elems = append(elems, pre...)
+		d.Delete = []*pb.Path{{Elem: append(elems, suf...)}}
 	default:
-		d.Delete = []*pb.Path{{Element: append(prefix.GetElement(), path.GetElement()...)}}
+		pre, suf := prefix.GetElement(), path.GetElement()
+		elems := make([]string, 0, len(pre)+len(suf))
+		elems = append(elems, pre...)
+		d.Delete = []*pb.Path{{Element: append(elems, suf...)}}
 	}
 	return d
+}
+
+// pathElems returns the structured elements of p, converted from the
+// deprecated string elements if those are all p has.
+func pathElems(p *pb.Path) []*pb.PathElem {
+	if len(p.GetElem()) > 0 || len(p.GetElement()) == 0 {
+		return p.GetElem()
+	}
+	pe := make([]*pb.PathElem, 0, len(p.GetElement()))
+	for _, e := range p.GetElement() {
+		pe = append(pe, &pb.PathElem{Name: e})
+	}
+	return pe
 }
 
 func (t *Target) gnmiRemove(n *pb.Notification) []*ctree.Leaf {
